@@ -86,6 +86,15 @@ SessionToken Terminal::Impl::newSession(Connection *wp_conn)
 
 bool Terminal::Impl::deleteSession(const SessionToken &st)
 {
+    //! called from a command of this very session (a command that stops the service, a connection
+    //! that deletes in endSession()): its input is still being processed, onRecvString() deletes it
+    //! when that is done
+    auto busy = sessions_.at(st);
+    if (busy != nullptr && busy->input_level > 0) {
+        busy->delete_later = true;
+        return true;
+    }
+
     auto s = sessions_.free(st);
     if (s != nullptr) {
         session_ctx_pool_.free(s);
@@ -143,6 +152,8 @@ bool Terminal::Impl::onRecvString(const SessionToken &st, const string &str)
     auto s = sessions_.at(st);
     if (s == nullptr)
         return false;
+
+    ++s->input_level;
 
     s->key_event_scanner_.start();
     KeyEventScanner::Status status = KeyEventScanner::Status::kUnsure;
@@ -202,6 +213,11 @@ bool Terminal::Impl::onRecvString(const SessionToken &st, const string &str)
             }
         }
     }
+
+    --s->input_level;
+    if (s->input_level == 0 && s->delete_later)
+        deleteSession(st);
+
     return true;
 }
 
